@@ -137,6 +137,7 @@ class SeqProp:
 
         n = self.quick_cases if tier == "quick" else self.thorough_cases
         n *= core.budget_scale(self.anchors, tier, report)
+        n = core.budget_div(n)
         cases = list(self.corpus())
         n_corpus = len(cases)
         cases.extend(self.gen(rng, n, tier))
